@@ -341,7 +341,7 @@ def _scan(files):
     import ast
     import os
     from fixtures import sharedwrites as sw
-    from vh.items.c20 import ALLOWED
+    from vh.items.c20 import ALLOWED, INVENTORY_FILES
     root = sw.repo_root()
     for rel in files:
         if rel in _wl:
@@ -349,7 +349,7 @@ def _scan(files):
         base = os.path.basename(rel)
         sites = [st for st in sw.sites_of(rel) if not st.construction and st.kind in ('set', 'aug', 'del', 'call', 'out', 'global')]
         writes = {(base, st.line) for st in sites}
-        _un[rel] = {(base, st.line) for st in sites if st.ident not in ALLOWED}
+        _un[rel] = {(base, st.line) for st in sites if st.ident not in ALLOWED} if rel in INVENTORY_FILES else set()
         wlines = {ln for _, ln in writes}
         half = set()
         tree = ast.parse(open(os.path.join(root, rel)).read())
@@ -466,15 +466,13 @@ def write_point_schedules(ctx, site, make, files, cap, nthreads=3, read_cap=None
     urgent = stratified(ctx.rng, urgent, 12 * cap)
     first = stratified(ctx.rng, first, 4 * cap)
     scheds = stratified(ctx.rng, scheds, cap)
-    reads = stratified(ctx.rng, reads, cap // 2 if read_cap is None else read_cap)
+    reads = stratified(ctx.rng, reads, max(4, cap // 6) if read_cap is None else read_cap)
     return urgent + first + scheds + reads
 
 
 def run_site(ctx, site, make, files, n=None, length=60, cap=None, nthreads=3, read_cap=None, points_first=False):
     n = ctx.scale(30, 500) if n is None else n
     two = cap is None
-    if ctx.searching:
-        cap = 3 * (ctx.scale(60, 2000) if cap is None else cap)     # an obligation is broken: this IS the failing-input search
     points = write_point_schedules(ctx, site, make, files, ctx.scale(60, 2000) if cap is None else cap, nthreads, read_cap)
     rand = list(gen_schedules(ctx, nthreads, n, length, two_switch=two))
     for schedule in (points + rand if (points_first or unmodelled_lines(files)) else rand + points):
